@@ -139,3 +139,25 @@ Proof.
   destruct (call_all beh n (alls s) s log) as [[s1 log1] alive]. destruct alive; [|reflexivity].
   rewrite call_ports_x_none. reflexivity.
 Qed.
+
+(* ------------------------------------------------------------------ the stream of reads, with failing reads *)
+(* deliveries = deliveries of the packets handed out before the first failing read: every packet that was received from
+   the link is dispatched exactly as by `run` (so exactly once to each matching registration), none twice, and nothing
+   after the failing read; the loop is alive afterwards iff no read failed and no packet_received callback raised *)
+Theorem run_stream_prefix beh : forall rs n s log,
+  let '(s1, log1, alive1) := run beh n (handed_out rs) s log in
+  run_stream beh n rs s log = (s1, log1, alive1 && negb (read_fails rs)).
+Proof.
+  induction rs as [|r rs IH]; intros n s log; cbn [run_stream handed_out read_fails run]; [reflexivity|].
+  destruct r as [h| |].
+  - cbn [run]. destruct (dispatch beh n h s log) as [[s' log'] alive]. destruct alive; [apply IH | reflexivity].
+  - apply IH.
+  - reflexivity.
+Qed.
+
+Corollary run_stream_no_fault beh rs n s log : read_fails rs = false ->
+  run_stream beh n rs s log = run beh n (handed_out rs) s log.
+Proof.
+  intros F. pose proof (run_stream_prefix beh rs n s log) as H.
+  destruct (run beh n (handed_out rs) s log) as [[s1 log1] a]. rewrite H, F, andb_true_r. reflexivity.
+Qed.
